@@ -27,6 +27,7 @@ class C04:
         cov["samples"] = [{"component": "proxy", "events": c.meta["events"], "dialogs": c.meta.get("dialogs")} for c in cases[len(corpus):len(corpus) + 3]]
         cov["corpus_cases"] = len(corpus)
         cov["exhaustive"] = False
+        pc.explore_tb(ctx, "C04", ["proxytb-C04", "proxytb-C03"], cov, failures)
         return {"coverage": cov, "failures": failures}
 
 
